@@ -19,7 +19,7 @@ core = simproc.core
 ID = "C08"
 LEVEL = "exploration"
 BATCH = 40
-PROBES_EXPECTED = ['probe:upgrade/sdkconfig', 'probe:upgrade/kconfig', 'probe:stored-default-checked', 'probe:context-free-mismatch', 'probe:promptless-entries', 'probe:used-instance', 'probe:default-injected']
+PROBES_EXPECTED = ['probe:stored-choice-default-checked', 'probe:upgrade/sdkconfig', 'probe:upgrade/kconfig', 'probe:stored-default-checked', 'probe:context-free-mismatch', 'probe:promptless-entries', 'probe:used-instance', 'probe:default-injected']
 TIERS = {"quick": {"runs": 7000, "wall": 50}, "thorough": {"runs": 300000, "wall": 840}}
 RULE = ("each run draws a program (and for the upgrade clause an evolved version: changed defaults/conditions/ranges/prompt conditions, "
         "added/removed options), a policy (sdkconfig/kconfig), a prefix history reaching a configuration whose file F is written, optionally a "
@@ -311,6 +311,27 @@ def execute(sc, ctx):
                         if name not in rec:
                             ctx.violate(f"C08/mismatch-not-reported/{pol}", f"{name}: stored default {val!r} differs from the Kconfig default {kval!r} "
                                         f"but policy {pol} holds no DefaultValuesArea record for it")
+    # choices: the stored default selection (exactly one default-marked member at y)
+    if upgrade and policy == "sdkconfig":
+        inj_syms = [n for n in ops.injected(kA) if not n.startswith("<choice")]
+        inj_choices = simproc.injected_choices(kA)
+        for ci, c in enumerate(kA.unique_choices):
+            stored = [nm for nm, raw, marked in entries if marked and raw.startswith("y") and nm in kA.syms and kA.syms[nm].choice is c]
+            if len(stored) != 1 or c._user_selection is not None:
+                continue
+            m = kA.syms[stored[0]]
+            with simproc.quiet():
+                cvis, mvis, sel = c.visibility, m.visibility, c.selection
+            if cvis and mvis:
+                ctx.counters["probe:stored-choice-default-checked"] += 1
+                if sel is not m:
+                    ctx.violate("C08/sdkconfig-policy/stored-choice-default-not-kept",
+                                f"choice #{ci}: stored default selection {m.name} is visible but the selection is {sel.name if sel else None}")
+            elif cvis and not mvis and not inj_syms and inj_choices == [ci]:
+                # nothing else was injected, so the member was invisible when the choice was resolved as well
+                ctx.violate("C08/sdkconfig-policy/invisible-stored-choice-default-injected",
+                            f"choice #{ci}: stored default selection {m.name} is not visible in the new tree but was injected as the choice's default "
+                            f"(selection now {sel.name if sel else None})")
     # promptless entries are always ignored
     Fp = os.path.join(sb, "F_nopromptless")
     ptext = strip_promptless(ftext, kA)
